@@ -10,7 +10,17 @@
 //	handlers on one server, scheduling points at every hooked mutex, token and
 //	audit-file operation;
 //
-// (c) the standalone command path with the same sink faults.
+// (c) the standalone command path with the same sink faults;
+//
+// (g) cli.go: the REAL relic binary (sign, sign-pgp) over every signature type
+//
+//	x digest x way the input reaches the command x pgp front end / output form,
+//	and with sinks that cannot take a record;
+//
+// (h) signedwith.go: the server path over every signature type x digest; in
+//
+//	(g) and (h) the record is compared with what the produced signature says
+//	about itself (sigdigest.go, an independent reader).
 package main
 
 import (
@@ -758,6 +768,8 @@ func main() {
 	// phases whose enumeration does not depend on choice points inside relic come first
 	run.Phase("rotation", rotationPhase)
 	run.Phase("identity", identityPhase)
+	run.Phase("signed-with", signedWithPhase)
+	run.Phase("cli", cliPhase)
 	run.Phase("broker", brokerPhase)
 	run.Phase("faults", faultPhase)
 	run.Phase("schedules", schedPhase)
@@ -765,9 +777,10 @@ func main() {
 	var keys []string
 	_ = keys
 	sort.Strings(keys)
-	run.Rule("(a) every history of <=3 requests from {sign rsaA/sha256, sign p256A/sha384, refused request} x sink configuration {file, file in missing directory, file+refusing broker, none} x every combination of <=2 (thorough 4) faults over the audit-file operations (open: EACCES/EISDIR/ENOSPC; write: ENOSPC/EIO/half-written; close: EIO); (b) every interleaving with <=3 preemptions for 2 threads and <=2 for 3 threads (thorough: 4 and 3) of concurrent /sign handlers over hooked mutex, token and audit-file operations; (c) the standalone pipeline x all open/write faults; (d) every history of <=2 requests x {broker only, broker + file} x every choice of what a loopback AMQP broker does with each publisher connection (ack, nack, TCP / channel / connection torn down between publish and confirm, dropped at the handshake, exchange.declare refused, confirmed then dropped); (e) every sequence of <=2 environment events {nothing, audit file deleted, audit directory removed, file renamed away} between 2-3 sign requests on one server; (f) every history of <=3 sign requests x 6 client identities (by fingerprint; issued by either of two configured client CAs, colliding pairwise on public key, subject and issuer) on one server, each record compared with the same request alone on a fresh server. states = executions, transitions = choice points. distinct_nontrivial = executions with at least one fault / preemption")
+	run.Rule("(a) every history of <=3 requests from {sign rsaA/sha256, sign p256A/sha384, refused request} x sink configuration {file, file in missing directory, file+refusing broker, none} x every combination of <=2 (thorough 4) faults over the audit-file operations (open: EACCES/EISDIR/ENOSPC; write: ENOSPC/EIO/half-written; close: EIO); (b) every interleaving with <=3 preemptions for 2 threads and <=2 for 3 threads (thorough: 4 and 3) of concurrent /sign handlers over hooked mutex, token and audit-file operations; (c) the standalone pipeline x all open/write faults; (d) every history of <=2 requests x {broker only, broker + file} x every choice of what a loopback AMQP broker does with each publisher connection (ack, nack, TCP / channel / connection torn down between publish and confirm, dropped at the handshake, exchange.declare refused, confirmed then dropped); (e) every sequence of <=2 environment events {nothing, audit file deleted, audit directory removed, file renamed away} between 2-3 sign requests on one server; (f) every history of <=3 sign requests x 6 client identities (by fingerprint; issued by either of two configured client CAs, colliding pairwise on public key, subject and issuer) on one server, each record compared with the same request alone on a fresh server; (g) the real relic binary with an audit file configured, each of 16 workers appending to one log: every signature type with a sample input (appx, pe-coff x2, appmanifest, vsix, apk, cab, dmg, msi, xar, xap, jar, ps x3, cat, rpm, deb, mach-o, pgp, cosign) x digest {flag left out, md5, sha1, sha224, sha256, sha384, sha512} x input {named file with -o, and - quick: for the flag left out and sha1, thorough: for every digest - named file in place, file redirected to stdin, pipe on stdin} x key {rsaA; p256A with default/sha384}, and for pgp: front end {sign -T pgp, sign-pgp -u KEY, sign-pgp -u CONF:KEY} x 7 output forms (detached, armored, text mode, cleartext, inline, inline armored, with ignored gpg options) x input {file argument, pipe, redirected file} x output {-o file, stdout} x 7 digests; an invocation that exits 0 and wrote its output must have appended exactly one JSON line naming the requested key and type, a digest that the produced signature itself names and the certificate it points at (independent reader of OpenPGP packets incl. RPM signature header and .deb _gpg member, CMS SignerInfo wherever a DER SignedData stands, in the signature members of zip containers and in script signature blocks, XML-DSig SignatureMethod, APK v2 block, cosign layer descriptor); plus audit sink {directory missing, path is a directory, /dev/full} x 7 ways of signing: the command must not report success; (h) one in-process server with the file sink: every sample x 7 digests (+ p256A/sha384) and pgp x 5 output forms x 7 digests through the real /sign handler, same oracle plus client name/ip/file name. states = executions, transitions = choice points. distinct_nontrivial = executions with at least one fault / preemption")
 	run.Assume("the audit file is an in-memory file with kernel O_APPEND semantics (atomic positioned append) and per-descriptor offsets otherwise")
 	run.Assume("a half-written record caused by an injected short write ends the history (the file is then no longer line-structured through no fault of relic)")
+	run.Assume("(g),(h): a request that relic refuses (non-zero exit / non-2xx) is tallied and not judged; a produced output in which the independent reader finds no signature is tallied as not inspected (none on the unchanged tree); the recorded digest is required to be ONE of the digests the signature names")
 	run.Assume("AMQP: the broker is verif/amqpfake (protocol frames written from the 0-9-1 specification, checked against relic's own publisher in amqpfake_test.go); a broker that accepts the publish and then stays silent forever is not in the alphabet (the publisher has no timeout: that history never ends)")
 	run.Finish()
 }
